@@ -182,3 +182,193 @@ def regen(repo, lean_dir):
 
 if __name__ == '__main__':
     print(generate(sys.argv[1] if len(sys.argv) > 1 else '/repo')[0])
+
+
+# ======================================================================================================
+# Lane reductions: tvl_any / tvl_all (both mask branches) and Qube.any / Qube.all (array branch).
+# Accepted shape of the function body:   if not self._shape_: … elif <mask is a single bool>: SCALAR else: ARRAY
+# where SCALAR / ARRAY are straight-line assignments ending in  args = (values, mask).
+# Element-wise expressions over self._values_ (v), self._mask_ (m; in the scalar branch the constant b),
+# self.antimask, & | ^ ~, np.logical_not/and/or, Qube.or_/and_;  np.any(E, axis=axis) / np.all(E, axis=axis) of an
+# element-wise E is a REDUCTION (numbered a0, a1, …); `self._size_ > 0` is the reduction "np.any(True)";
+# bool(x), `x and y`, `x or y` and the same operators combine reductions and the scalar mask b.
+
+class RedSym:
+    def __init__(self, scalar_branch):
+        self.scalar = scalar_branch
+        self.env = {}
+        self.reds = []          # (kind 'any'|'all', element-wise expr over v m)
+
+    def add_red(self, kind, e):
+        key = (kind, e)
+        if key not in self.reds:
+            self.reds.append(key)
+        return ('r', 'a%d' % self.reds.index(key))
+
+    def ev(self, e):
+        """returns ('e', expr over v m) element-wise or ('r', expr over a_i and b) reduced"""
+        if isinstance(e, ast.Name):
+            if e.id in self.env:
+                return self.env[e.id]
+            raise Untranslatable('unbound name ' + e.id)
+        if isinstance(e, ast.Attribute) and isinstance(e.value, ast.Name) and e.value.id == 'self':
+            if e.attr == '_values_': return ('e', 'v')
+            if e.attr == '_mask_': return ('r', 'b') if self.scalar else ('e', 'm')
+            if e.attr == 'antimask': return ('r', '(!b)') if self.scalar else ('e', '(!m)')
+            raise Untranslatable('attribute ' + ast.unparse(e))
+        if isinstance(e, ast.Compare) and len(e.ops) == 1 and isinstance(e.ops[0], ast.Gt) \
+                and ast.unparse(e.left) == 'self._size_' and ast.unparse(e.comparators[0]) == '0':
+            return self.add_red('any', 'true')
+        if isinstance(e, ast.BoolOp):
+            parts = [self.ev(x) for x in e.values]
+            if any(k != 'r' for k, _ in parts):
+                raise Untranslatable('and/or on arrays')
+            op = ' && ' if isinstance(e.op, ast.And) else ' || '
+            return ('r', '(' + op.join(x for _, x in parts) + ')')
+        if isinstance(e, ast.BinOp) and isinstance(e.op, (ast.BitAnd, ast.BitOr, ast.BitXor)):
+            (k1, x), (k2, y) = self.ev(e.left), self.ev(e.right)
+            if k1 != k2:
+                raise Untranslatable('mixing element-wise and reduced operands: ' + ast.unparse(e))
+            op = {ast.BitAnd: '&&', ast.BitOr: '||', ast.BitXor: '^^'}[type(e.op)]
+            return (k1, '(%s %s %s)' % (x, op, y))
+        if isinstance(e, ast.UnaryOp) and isinstance(e.op, (ast.Invert, ast.Not)):
+            k, x = self.ev(e.operand)
+            return (k, '(!%s)' % x)
+        if isinstance(e, ast.Call):
+            f = dotted(e.func)
+            if f == 'bool' and len(e.args) == 1:
+                return self.ev(e.args[0])
+            if f in ('np.any', 'np.all') and len(e.args) == 1 and [k.arg for k in e.keywords] == ['axis']:
+                k, x = self.ev(e.args[0])
+                if k != 'e':
+                    raise Untranslatable('reduction of a reduced value')
+                return self.add_red(f[3:], x)
+            if f == 'np.logical_not' and len(e.args) == 1:
+                k, x = self.ev(e.args[0]); return (k, '(!%s)' % x)
+            two = {'np.logical_and': '&&', 'Qube.and_': '&&', 'np.logical_or': '||', 'Qube.or_': '||'}
+            if f in two and len(e.args) == 2:
+                (k1, x), (k2, y) = self.ev(e.args[0]), self.ev(e.args[1])
+                if k1 != k2:
+                    raise Untranslatable('mixing element-wise and reduced operands: ' + ast.unparse(e))
+                return (k1, '(%s %s %s)' % (x, two[f], y))
+        raise Untranslatable('expression ' + ast.unparse(e))
+
+    def run(self, stmts):
+        for st in stmts:
+            if isinstance(st, ast.Assign) and len(st.targets) == 1 and isinstance(st.targets[0], ast.Name):
+                t = st.targets[0].id
+                if t == 'args':
+                    if not (isinstance(st.value, ast.Tuple) and len(st.value.elts) == 2):
+                        raise Untranslatable('args is not a pair')
+                    (k1, x), (k2, y) = self.ev(st.value.elts[0]), self.ev(st.value.elts[1])
+                    if k1 != 'r' or k2 != 'r':
+                        raise Untranslatable('result is not reduced')
+                    return (x, y)
+                self.env[t] = self.ev(st.value)
+                continue
+            raise Untranslatable('statement ' + ast.unparse(st).split('\n')[0])
+        raise Untranslatable('no args = (values, mask)')
+
+
+def is_scalar_mask_test(t):
+    s = ast.unparse(t)
+    return s in ('np.isscalar(self._mask_)', 'isinstance(self._mask_, (bool, np.bool_))', 'isinstance(self._mask_, bool)')
+
+
+RED_TARGETS = [('polymath/extensions/tvl.py', None, 'tvl_any', 'kor', '.f', True),
+               ('polymath/extensions/tvl.py', None, 'tvl_all', 'kand', '.t', True),
+               ('polymath/qube.py', 'Qube', 'any', 'ignOr', '.m', False),
+               ('polymath/qube.py', 'Qube', 'all', 'ignAnd', '.m', False)]
+
+
+def gen_reductions(repo):
+    out, errors, nobl = [], [], 0
+    for path, cls, fn, op, unit, with_scalar in RED_TARGETS:
+        try:
+            tree = ast.parse(open(os.path.join(repo, path)).read())
+            f = find_func(tree, fn, cls)
+            top = [st for st in f.body if isinstance(st, ast.If) and ast.unparse(st.test) == 'not self._shape_']
+            if len(top) != 1 or len(top[0].orelse) != 1 or not isinstance(top[0].orelse[0], ast.If) \
+                    or not is_scalar_mask_test(top[0].orelse[0].test):
+                raise Untranslatable('branch structure (shapeless / scalar mask / array mask) not recognised')
+            inner = top[0].orelse[0]
+            branches = [('arr', False, inner.orelse)] + ([('sca', True, inner.body)] if with_scalar else [])
+            for tag, scalar, stmts in branches:
+                s = RedSym(scalar)
+                val, msk = s.run(stmts)
+                n = len(s.reds)
+                if not 1 <= n <= 3:
+                    raise Untranslatable('%d reductions (supported: 1..3)' % n)
+                name = '%s_%s' % (fn, tag)
+                barg = '(b : Bool) ' if scalar else ''
+                bapp = ' b' if scalar else ''
+                avars = ' '.join('a%d' % i for i in range(n))
+                lines = ['/-- regenerated from %s:%d `%s`, %s-mask branch -/' % (path, f.lineno, fn, 'scalar' if scalar else 'array')]
+                for i, (kind, e) in enumerate(s.reds):
+                    lines.append('def %s_p%d (v m : Bool) : Bool := %s' % (name, i, e))
+                lines.append('def %s_comb %s(%s : Bool) : Bool × Bool := (%s, %s)' % (name, barg, avars, val, msk))
+                ks = ['true' if kind == 'any' else 'false' for kind, _ in s.reds]
+                redcalls = ' '.join('(red %s %s_p%d xs)' % (ks[i], name, i) for i in range(n))
+                lines.append('def %s %s(xs : List (Bool × Bool)) : Bool × Bool := %s_comb%s %s' % (name, barg, name, bapp, redcalls))
+                # obligation: the lane function is the fold of the documented operator, for every lane.
+                # The accumulator invariant is the set of REACHABLE accumulator tuples, computed here by closure
+                # (finite: 2^n tuples), so that the one-step equation is only demanded where it can be needed.
+                def pyexpr(e):
+                    return e.replace('&&', ' and ').replace('||', ' or ').replace('^^', ' != ').replace('!', ' not ').replace('true', 'True').replace('false', 'False')
+                preds = [pyexpr(e) for _, e in s.reds]
+                kinds = [kind for kind, _ in s.reds]
+
+                def reach(bval):
+                    init = tuple(k == 'all' for k in kinds)
+                    seen, todo = {init}, [init]
+                    while todo:
+                        acc = todo.pop()
+                        for v in (False, True):
+                            for m in ((bval,) if scalar else (False, True)):
+                                xs = [bool(eval(pe, {'v': v, 'm': m})) for pe in preds]
+                                nxt = tuple((x or a) if k == 'any' else (x and a) for x, a, k in zip(xs, acc, kinds))
+                                if nxt not in seen:
+                                    seen.add(nxt); todo.append(nxt)
+                    return sorted(seen)
+
+                def inv(bval):
+                    terms = ['(' + ' && '.join('%sa%d' % ('' if t[i] else '!', i) for i in range(n)) + ')' for t in reach(bval)]
+                    return '(fun %s => %s)' % (avars, ' || '.join(terms))
+                args = ' '.join(ks) + ' ' + ' '.join('%s_p%d' % (name, i) for i in range(n))
+                if scalar:
+                    body = ('  cases b with\n'
+                            '  | false => exact fold%d %s (%s_comb false) %s %s (fun _ m => m == false) %s (by decide) (by decide) xs hP\n'
+                            '  | true => exact fold%d %s (%s_comb true) %s %s (fun _ m => m == true) %s (by decide) (by decide) xs hP'
+                            % (n, args, name, op, unit, inv(False), n, args, name, op, unit, inv(True)))
+                    hyp = '(hP : ∀ c ∈ xs, (c.2 == b) = true) '
+                else:
+                    body = ('  exact fold%d %s %s_comb %s %s (fun _ _ => true) %s (by decide) (by decide) xs (fun _ _ => rfl)'
+                            % (n, args, name, op, unit, inv(None)))
+                    hyp = ''
+                lines.append('theorem %s_fold %s(xs : List (Bool × Bool)) %s:\n    t3of (%s%s xs) = (xs.map pairT3).foldr %s %s := by\n%s'
+                             % (name, barg, hyp, name, bapp, op, unit, body))
+                out.append('\n'.join(lines) + '\n')
+                nobl += 1
+        except (Untranslatable, SyntaxError, OSError) as e:
+            errors.append('%s:%s: %s' % (path, fn, e))
+            out.append('/-- NOT TRANSLATABLE (%s): an obligation that cannot be proved, so that the tie is reported broken -/\n'
+                       'theorem %s_untranslatable : (0 : Nat) = 1 := by decide\n' % (str(e).replace('-/', '- /'), fn))
+    src = ('import PMV.Lemmas.RedFold\n/- GENERATED by harness/c14_py2lean.py from /repo on every run — do not edit.\n'
+           '   Lane reductions of tvl.py / qube.py with the obligation that each is the fold of its documented operator. -/\n'
+           'set_option linter.unusedVariables false\nnamespace PMV.Gen.Red\nopen PMV.Logic3\n\n' + '\n'.join(out) + '\nend PMV.Gen.Red\n')
+    return src, errors, nobl
+
+
+_regen_elementwise = regen
+
+
+def regen(repo, lean_dir):
+    info = _regen_elementwise(repo, lean_dir)
+    src, errors, nobl = gen_reductions(repo)
+    path = os.path.join(lean_dir, 'PMV', 'Gen', 'TvlRed.lean')
+    if not os.path.exists(path) or open(path).read() != src:
+        open(path, 'w').write(src)
+    info['files'] = [info.pop('file'), 'PMV/Gen/TvlRed.lean']
+    info['reduction_branches'] = nobl
+    info['untranslatable'] = info['untranslatable'] + errors
+    return info
